@@ -431,6 +431,12 @@ func (p *Element) Neg(p1 *Element) *Element {
 
 // ScalarMul sets p to p1*s.
 func (p *Element) ScalarMul(p1 *Element, scalarMont *fr.Element) *Element {
+	// Any multiple of the identity (x = 0 in either representative of its class) is the identity.
+	// It must be handled here: the endomorphism used by the underlying scalar multiplication
+	// maps x = 0 to the invalid all-zero point.
+	if p1.inner.X.IsZero() && !p1.inner.Y.IsZero() {
+		return p.SetIdentity()
+	}
 	var bigScalar big.Int
 	scalarMont.ToBigIntRegular(&bigScalar)
 	p.inner.ScalarMultiplication(&p1.inner, &bigScalar)
